@@ -75,6 +75,7 @@ type DictEntry struct {
 	Code   uint32 `json:"code"`
 	Vendor uint32 `json:"vendor"`
 	Type   int    `json:"type"` // datatype.TypeID or -1 undefined
+	Name   string `json:"name,omitempty"`
 	Cmd    bool   `json:"cmd,omitempty"`
 	NReq   int    `json:"nreq,omitempty"`
 	NAns   int    `json:"nans,omitempty"`
